@@ -43,7 +43,7 @@ def run(chk: Check):
                 'len, [] at every seam, one past the end, lookups of the first and last identifier of every part, iteration, '
                 'refused add / sync / append; plus base + associated families merged separately.  Non-trivial = a completed '
                 'merge of >= 2 inputs of different sizes read back through the merged store')
-    gen = [{'name': f'gen:{i}', 'ops': su.gen_history(chk.rng, 'C09')} for i in range(chk.n(120, 2000))]
+    gen = [{'name': f'gen:{i}', 'ops': su.gen_history(chk.rng, 'C09')} for i in range(chk.n(120, 1500))]
     su.run_property(chk, 'C09', PROPS, gen, nontrivial, extra=extra, leftovers=False)
 
 
